@@ -459,6 +459,8 @@ func (c *Check) updatesTakeEffect(rule string) {
 		}
 		sort.Strings(fields)
 		bad := map[string]token.Pos{}
+		badSrc := map[string]string{}
+		badSrcPos := map[string]token.Pos{}
 		nPaths := 0
 		for _, pa := range c.P.PathsOf(f) {
 			if pa.Exit != ExitSuccess {
@@ -471,6 +473,22 @@ func (c *Check) updatesTakeEffect(rule string) {
 				if e.Kind == "store" && e.Op == "Set" && e.Family == "0x08" && e.Val != nil {
 					if sv := structIn(e.Val, "RequestContext"); sv != nil {
 						stored = sv
+					}
+				}
+			}
+			// whatever is stored in an updatable field is the caller's value for that field or the field's own old value
+			// (a kept threshold taken from the batch's snapshot silently reverts an earlier accepted change)
+			if stored != nil {
+				L := baseOf(stored)
+				for _, fld := range updatableCtxFields {
+					v := stripConv(stripSpread(field("RequestContext", fld, stored)))
+					old := stripConv(field("RequestContext", fld, L))
+					isParam := v.Op == "" && strings.HasPrefix(v.At, "P")
+					if !(isParam || v.Eq(old)) {
+						if _, dup := badSrc[fld]; !dup {
+							badSrc[fld] = "stored " + fld + " = " + shortTerm(v)
+							badSrcPos[fld] = pa.RetPos
+						}
 					}
 				}
 			}
@@ -491,6 +509,15 @@ func (c *Check) updatesTakeEffect(rule string) {
 					bad[fld] = pa.RetPos
 				}
 			}
+		}
+		for _, fld := range updatableCtxFields {
+			why, isBad := badSrc[fld]
+			pos := f.Body.Pos()
+			if isBad {
+				pos = badSrcPos[fld]
+			}
+			c.req(!isBad, rule, unitConstruct(f, "update-source:"+fld), pos,
+				"the stored "+fld+" is the caller's value for it or its own previous value"+condStr(isBad, ": "+why))
 		}
 		c.Sites += nPaths * len(fields)
 		for _, fld := range fields {
